@@ -25,7 +25,7 @@ type outSpec struct {
 	NoMetadata  bool        `json:"no_metadata"`
 	DisableJSON bool        `json:"disable_json"`
 	Timestamp   bool        `json:"add_timestamp"`
-	Real        bool        `json:"real"` // real shell cross-check
+	Real        bool        `json:"real"`  // real shell cross-check
 	Other       bool        `json:"other"` // a second process logging concurrently (unified file)
 }
 
@@ -348,7 +348,7 @@ func runOutputReal(c fw.Case) fw.Result {
 func init() {
 	fw.Register(&fw.Property{
 		ID: "C11", Level: "exploration",
-		Rule: "scripted output (0-400 lines per chunk, lengths up to 200 kB and around the 4096-byte reader buffer, stdout/stderr mix, bursts immediately before exit, missing final newline on either stream, exit codes) x 0-3 restarts x logger configurations (none / per-process file / unified file with a second logging process / flush_each_line / no_metadata / disable_json / add_timestamp); every line carries a unique id and the id sequences of the in-memory log and of the log file must be exactly 0..N-1 per attempt and stream, attempts in order; plus real-shell cross-checks (printf without newline, seq, long lines); distinct = output script + logger configuration",
+		Rule:        "scripted output (0-400 lines per chunk, lengths up to 200 kB and around the 4096-byte reader buffer, stdout/stderr mix, bursts immediately before exit, missing final newline on either stream, exit codes) x 0-3 restarts x logger configurations (none / per-process file / unified file with a second logging process / flush_each_line / no_metadata / disable_json / add_timestamp); every line carries a unique id and the id sequences of the in-memory log and of the log file must be exactly 0..N-1 per attempt and stream, attempts in order; plus real-shell cross-checks (printf without newline, seq, long lines); distinct = output script + logger configuration",
 		Assumptions: []string{"the simulated pipe behaves like an OS pipe: data written before exit stays readable until the read end is closed by Wait()", "supervisor-inserted lines (restart separator, error texts) carry no id and are ignored"},
 		Gen: func(seed int64, tier string) []fw.Case {
 			var cs []fw.Case
